@@ -160,19 +160,19 @@ def impl_server(case):
             bound = []
             for obj in ifobjs.values():
                 try:
-                    bound.append(obj.server_address[1])
+                    bound.append(int(obj.server_address[1]))
                 except Exception:
-                    pass
-            candidates = sorted(set(p for p in ports if p) | set(bound))
+                    bound.append(0)
+            candidates = sorted(set(p for p in ports if p) | set(b for b in bound if b))
+            live = [l for l in listeners if l.sock.fileno() != -1]
             obs = {
                 'blocked': blocked,
                 'configured': [['tcp', p] for p in ports],
-                'reported': [[u.split('://')[0], int(u.split('://')[1])] for u in ifobjs],
+                'reported': [[u.split('://')[0], int(u.split('://')[1]), b] for u, b in zip(ifobjs, bound)],
                 'served': [p for p in candidates if is_secop_server(p)],
                 'listener': list(listeners[-1].ports),
                 'answers': discover(discovery.UDP_PORT),
-                'live': sorted(p for l in listeners if l.sock.fileno() != -1 for p in l.ports),
-                'nlive': sum(1 for l in listeners if l.sock.fileno() != -1),
+                'live': [list(l.ports) for l in live],
             }
             result['rounds'].append(obs)
             if rnd + 1 < len(script):
